@@ -119,6 +119,45 @@ def check_case(ctx, case):
         what = [k for k in base if base[k] != after2[k]]
         return fail('affected-by-caller-mutation', 'after recomputation the results follow the caller\'s later changes: %r'
                     % what, field='values' if 'values' in what else 'coordinates')
+    # ... and a forced re-computation of everything derived from the observations does not pick them up either
+    with quiet():
+        V.preprocessing(force=True)
+    after3 = obs(V)
+    if not same(after3, base):
+        what = [k for k in base if base[k] != after3[k]]
+        return fail('affected-by-caller-mutation', 'after preprocessing(force=True) the results follow the caller\'s later '
+                    'changes: %r' % what, field='values' if 'values' in what or 'exp' in what else 'coordinates')
+    # observations handed over in other array-like containers (np.asarray of them shares the caller's memory):
+    # later in-place changes of the container must not reach the instance either
+    if not case['cross']:
+        import array as _array
+
+        class _Sub(np.ndarray):
+            pass
+        containers = [('masked', lambda a: np.ma.MaskedArray(a.copy())), ('subclass', lambda a: a.copy().view(_Sub)),
+                      ('array.array', lambda a: _array.array('d', a.tolist()))]
+        try:
+            import pandas as _pd
+            containers.append(('series', lambda a: _pd.Series(a.copy())))
+        except ImportError:
+            pass
+        kind, mk = containers[int(ctx.rng.integers(0, len(containers)))]
+        reg('container:' + kind)
+        try:
+            box = mk(v0)
+            Vc = build(case, c0.copy(), box)
+            bc = obs(Vc)
+            for i in range(len(v0)):
+                box[i] = box[i] * 2.0 + 1000.0
+            with quiet():
+                Vc.preprocessing(force=True)
+            ac = obs(Vc)
+            if not same(ac, bc):
+                what = [k for k in bc if bc[k] != ac[k]]
+                return fail('affected-by-caller-mutation', 'observations given as %s: after the caller changed the container in '
+                            'place (and a forced re-computation) the results changed: %r' % (kind, what), field='values')
+        except (ValueError, RuntimeError, TypeError) as e:
+            ctx.reject('container:%s:%s' % (kind, type(e).__name__))
     # returned lag edges are a copy
     reg('mutate-returned-bins')
     with quiet():
